@@ -235,6 +235,17 @@ func (c03Plugin) PostReadPushHeader(ctx erpc.ReadCtx) *erpc.Status { return c03V
 func (c03Plugin) PreReadPushBody(ctx erpc.ReadCtx) *erpc.Status    { return c03Veto(ctx.Seq(), 'b') }
 func (c03Plugin) PostReadPushBody(ctx erpc.ReadCtx) *erpc.Status   { return c03Veto(ctx.Seq(), 'p') }
 
+// PostWriteReply panics for every third sequence number: a fault in a post-write hook comes after
+// the one reply of the call is on the wire; the framework recovers it and must not answer again
+// (observably nothing changes, so the model needs no input for it).
+func (c03Plugin) PostWriteReply(ctx erpc.WriteCtx) *erpc.Status {
+	if ctx.Output().Seq()%3 == 0 {
+		var m map[string]int
+		m["audit"]++ // nil map write
+	}
+	return nil
+}
+
 // route bank: kind, handler
 type c03Route struct {
 	kind byte
